@@ -45,7 +45,10 @@ def queries(tier):
         for p in tc.insert_new_cases(h):
             qs.append(step(PROP, tt, h, 0, p, 0, newmode=NM, extra=X if p % 3 == 0 else ()))
         for p in tc.hit_cases(h):
-            qs.append(step(PROP, tt, h, 0, p, 1, newmode=NM, extra=X if p % 3 == 1 else ()))   # replace: old key + old value destroyed
+            # replace: the stored key and value objects are notified at this call, whatever the new pair is -- new value in {fresh, the very
+            # object stored under this key, an object stored under another key}, new key in {fresh, the stored key object itself} (symbolic);
+            # one notification per insertion of an object, checked over the operation + p_tree_free
+            qs.append(step(PROP, tt, h, 0, p, 1, newmode=NM, extra=X + ["REPLACE_SYM"]))
             for rc in tc.remcases(h, p):
                 if tc.two_child(rc):
                     # the class of the recorded finding: while it is open only the demonstration queries below run it
@@ -74,7 +77,7 @@ def queries(tier):
         for p, rc in ((4, 0), (2, 1), (3, 2), (1, 3), (1, 4), (1, 0)):
             qs.append(step(PROP, tt, h, 1, p, 1, newmode=NM, remcase=rc, extra=["NULLTOK=1"] + (X if tt == 0 or p == 1 else [])))
         for p in (1, 5):
-            qs.append(step(PROP, tt, h, 0, p, 1, newmode=NM, extra=["NULLTOK=1"] + X))
+            qs.append(step(PROP, tt, h, 0, p, 1, newmode=NM, extra=["NULLTOK=1", "REPLACE_SYM"] + X))
         for p in (1, 9):
             qs.append(step(PROP, tt, h, 0, p, 0, newmode=NM, extra=["NULLTOK=2"] + X))
         qs.append(step(PROP, tt, h, 4, newmode=NM, extra=["SYM_MAG", "NULLTOK=3"]))
